@@ -46,7 +46,7 @@ func c04Hof(ctx *core.Ctx, idx int) core.Result { return hofCase("C04", ctx, idx
 
 func hofCase(prop string, ctx *core.Ctx, idx int, data int) core.Result {
 	r := core.CaseRng(ctx.Seed, prop+"/hof", idx)
-	stmts := gen.HofProgram(r, data)
+	stmts := gen.HofProgram(r, data, prop == "C02")
 	opts := diffOpts{DoOut: idx%2 == 0, Stress: stressModes[(idx/2)%len(stressModes)], Residue: true, Globals: true}
 	d := runDiff(stmts, opts)
 	res := diffCase(prop, stmts, opts, d, map[string]any{"family": "hof"})
